@@ -218,6 +218,26 @@ pub fn zip_e(a: &E, b: &E) -> E {
     }
 }
 
+pub fn memo_e(key: u16) -> E {
+    E {
+        id: mix(0x3E30, key as u64),
+        key,
+        v: key as i64 * 3 + 1,
+        ts: 0,
+        pad: Vec::new(),
+    }
+}
+
+pub fn unique_e(key: u16) -> E {
+    E {
+        id: mix(0x0191, key as u64),
+        key,
+        v: 0,
+        ts: 0,
+        pad: Vec::new(),
+    }
+}
+
 pub fn line_e(line: &str) -> E {
     let mut h = 0xcbf2_9ce4_8422_2325u64;
     for b in line.bytes() {
@@ -432,6 +452,27 @@ impl<'a> Builder<'a> {
 
     fn unary(&mut self, s: DS<E>, op: &UnOp, path: &[usize]) -> DS<E> {
         match op.clone() {
+            UnOp::Extra(x) => match x {
+                ExtraOp::FilterMap(p, f) => boxed(s.filter_map(move |e| if p.test(&e) { Some(f.apply(e)) } else { None })),
+                ExtraOp::Flatten(f) => boxed(s.map(move |e| f.apply(e)).flatten()),
+                ExtraOp::RichFlatMap(f) => boxed(s.rich_flat_map(move |e| f.apply(e))),
+                ExtraOp::RichFilterMap(p) => boxed(s.rich_filter_map(move |e| if p.test(&e) { Some(e) } else { None })),
+                ExtraOp::MemoKey => boxed(s.map_memo_by(|e: E| memo_e(e.key), |e: &E| e.key, 64)),
+                ExtraOp::UniqueKeys => boxed(s.map(|e| unique_e(e.key)).unique_assoc()),
+                ExtraOp::Inspect => boxed(s.inspect(|_e| {})),
+                ExtraOp::KeyedChain(p, f) => {
+                    let s = self.probe(s, path, 0, "pre");
+                    let k = boxed_keyed(s.group_by(|e| e.key));
+                    let k = KeyedStreamProbe::probe(self, k, path, "start");
+                    boxed(
+                        k.filter(move |(_, e)| p.test(e))
+                            .flat_map(move |(_, e)| f.apply(e))
+                            .rich_filter_map(|(_, e): (&u16, E)| Some(e))
+                            .inspect(|_| {})
+                            .drop_key(),
+                    )
+                }
+            },
             UnOp::Map(f) => boxed(s.map(move |e| f.apply(e))),
             UnOp::Filter(p) => boxed(s.filter(move |e| p.test(e))),
             UnOp::FlatMap(f) => boxed(s.flat_map(move |e| f.apply(e))),
